@@ -20,7 +20,8 @@ ASSUMPTIONS = [
 ]
 
 FILLERS = [' ', '\n', '\t\r\n  ', '/**/', ' /* x */ ', '/* { ; } " \' class */', ' // ; } { class\n', '/*\n * multi\n * line ;\n */',
-           '/** banner **/', '/***/', '//\n', '/* a */ /* b **/', '// c1\n  // c2 */\n', '/* // */', '// /*\n']
+           '/** banner **/', '/***/', '//\n', '/* a */ /* b **/', '// c1\n  // c2 */\n', '/* // */', '// /*\n',
+           '/* void serialize() const; serializable; #include <x.h> virtual template<T = {int}> typedef enum namespace n { } */']
 
 
 def seeds():
